@@ -1,5 +1,7 @@
 package c28
 
+import "wa-lang.org/wa/api"
+
 // Small corpus for the concurrent-API scenarios: programs whose compilation
 // uses the table, the data segment (string constants), closures, methods,
 // interfaces and maps of the module under construction, in both syntaxes, plus
@@ -127,6 +129,31 @@ func main {
 	println("unterminated
 }
 `},
+	{"ostag_j", "j.wa", `
+import "apple"
+
+func main {
+	println(apple.Apple())
+}
+`},
+	{"ostag_k", "k.wa", `
+import "apple"
+import "math/rand"
+
+func main {
+	r := rand.New(rand.NewSource(7))
+	println(apple.Apple(), r.Intn(100))
+}
+`},
+	{"ostag_l", "l.wa", `
+import "apple"
+
+global banner = "banner-" + apple.Apple()
+
+func main {
+	println(banner, len(banner))
+}
+`},
 	{"fmt_i", "i.wa", `
 import "fmt"
 
@@ -141,5 +168,40 @@ func main {
 }
 `},
 }
+
+// callers may share a base configuration and clone it per call with their own
+// target (the playground offers several targets); the tag slice has spare capacity
+var baseCfg = func() *api.Config {
+	c := api.DefaultConfig()
+	c.BuilgTags = append(make([]string, 0, 8), "demo")
+	return c
+}()
+
+var cfgVariants = []string{"default", "clone:js", "clone:unknown"}
+
+func cfgFor(v int) *api.Config {
+	switch v {
+	case 1:
+		c := baseCfg.Clone()
+		c.TargetOS = "js"
+		return c
+	case 2:
+		c := baseCfg.Clone()
+		c.TargetOS = "unknown"
+		return c
+	}
+	return api.DefaultConfig()
+}
+
+// programs whose set of source files depends on the target OS (build tags)
+var taggedProgs = func() []int {
+	var r []int
+	for i, p := range corpus {
+		if len(p.Name) > 6 && p.Name[:6] == "ostag_" {
+			r = append(r, i)
+		}
+	}
+	return r
+}()
 
 var apis = []string{"RunCode", "BuildFile", "FormatCode", "GetCodeSyntax"}
